@@ -636,8 +636,11 @@ func ruleR11_1(p *Program, r *Report) {
 					r.Check(ok, "R11.1", key, p.InstrPos(c), "the inflater waits for at most one byte beyond what the bit buffer holds, or takes what is buffered", why)
 				case rel == flateRel && (isFunc(f, "io", "ReadFull") || isFunc(f, "io", "ReadAtLeast") || isFunc(f, "io", "ReadAll") || isFunc(f, "io", "Copy")):
 					r.Fail("R11.1", key, p.InstrPos(c), "the inflater never insists on a fixed amount of input", f.Name()+" blocks until its buffer is full")
-				case rel != flateRel && isFunc(f, "io", "ReadFull"):
+				case rel != flateRel && (isFunc(f, "io", "ReadFull") || readFullLike(f) >= 0):
 					buf := c.Common().Args[1]
+					if i := readFullLike(f); i >= 0 {
+						buf = c.Common().Args[i] // the package's own fill loop (readFull)
+					}
 					ok := false
 					if _, _, _, _, isFixed := sliceBounds(buf); isFixed {
 						ok = true
@@ -1485,4 +1488,34 @@ func ioReaderIface(p *Program) *types.Interface {
 		}
 	}
 	return types.NewInterfaceType(nil, nil)
+}
+
+// readFullLike: f is a repository function that fills a []byte parameter by calling Read on an io.Reader parameter
+// (the package's own io.ReadFull); it returns the index of the []byte parameter, or -1.
+func readFullLike(f *ssa.Function) int {
+	if f == nil || f.Blocks == nil || f.Signature.Recv() != nil {
+		return -1
+	}
+	bufIdx := -1
+	var rd *ssa.Parameter
+	for i, par := range f.Params {
+		if sl, ok := par.Type().Underlying().(*types.Slice); ok {
+			if b, ok := sl.Elem().Underlying().(*types.Basic); ok && b.Kind() == types.Uint8 {
+				bufIdx = i
+			}
+		}
+		if _, ok := par.Type().Underlying().(*types.Interface); ok {
+			rd = par
+		}
+	}
+	if bufIdx < 0 || rd == nil {
+		return -1
+	}
+	for _, c := range allCalls(f) {
+		com := c.Common()
+		if com.IsInvoke() && com.Method.Name() == "Read" && com.Value == ssa.Value(rd) {
+			return bufIdx
+		}
+	}
+	return -1
 }
